@@ -883,10 +883,10 @@ Definition exec_dict (sc : scope) (st : state) (ps : pos) (tid : N) (tk : kind) 
           match tlit ev (accepts_partial sc tfl) (Some sp) v' with
           | LitNode _ _ _ lits =>
               if negb (stored_ok (accepts_partial sc tfl) sp (LitNode KDict default_flags false lits) v') then (st, Err EOther) else
-              let st1 := detach_all (update_at st ps (set_items [])) (ordered_items ev (Node tid tk None tpth tfl its)) in
-              let '(tmp, nx) := build false None tpth (LitNode tk (mkFlags false true (accepts_partial sc tfl) 0%N) false lits) (next_id st1) in
+              let '(tmp, nx) := build false None tpth (LitNode tk (mkFlags false true (accepts_partial sc tfl) 0%N) false lits) (next_id st) in
               let its' := map (fun kc => (fst kc, set_par (Some tid) (snd kc))) (nitems tmp) in
-              let st2 := update_at (with_next st1 nx) ps (set_items its') in
+              let st1 := update_at (with_next st nx) ps (set_items its') in
+              let st2 := detach_all st1 (ordered_items ev (Node tid tk None tpth tfl its)) in
               ((if notify_on sc then fix_chain st2 ps else st2), Ok RNone)
           | LitLeaf _ => (st, Err EType)
           end
